@@ -1068,9 +1068,9 @@ func (e *accEng) Gen(r *Rand, thorough bool, idx int) Case {
 			c.Ops = append(c.Ops, fmt.Sprintf("setinputs t=%d in=%s", i, strings.Join(genDecl(r.Intn(5)), ",")))
 		case x < 27 && !q:
 			c.Ops = append(c.Ops, fmt.Sprintf("setinputs t=%d b=%d n=%d", i, r.Intn(2), r.Intn(5)))
-		case x < 31 && !q:
-			// the controller rewrites the memory it keeps its declarations in (for the queue flavour this is finding D9,
-			// reproduced by ONE corpus case only: the framework reports at most three divergent cases per run)
+		case x < 31:
+			// the controller rewrites the memory it keeps its declarations in (both flavours: before the D9 repair the
+			// queue runtime kept the slices of Settings() and this changed its access sets)
 			if r.Chance(1, 4) {
 				var os []string
 				for range 1 + r.Intn(2) {
